@@ -182,7 +182,7 @@ func (g *gen) typ(depth int) *sg.TypeSpec {
 	case 4, 5:
 		t := &sg.TypeSpec{Name: "string"}
 		if g.pick(2, "len") == 1 {
-			t.Length = []string{"0..3", "2", "1..2|4|6..8", "3..max", "min..1|5"}[g.pick(5, "lenx")]
+			t.Length = []string{"0..3", "2", "1..2|4|6..8", "3..max", "min..1|5", "0 | 3..max", "min..1 | 4..max", "0..1|3|5..max", "min | max"}[g.pick(9, "lenx")]
 			if g.pick(3, "lmsg") == 1 {
 				t.LenMsg = "custom length message"
 			}
